@@ -4,6 +4,7 @@
 # builds, runs the existing tests, runs the given property checks against the scratch tree, cleans up.
 set -u
 . /verif/zogcheck/env.sh
+export GOFLAGS="-mod=mod -trimpath"  # scratch worktrees in different directories share build-cache entries
 props=$1; shift
 D=$(mktemp -d /tmp/mut.XXXXXX)
 rmdir $D
@@ -25,3 +26,4 @@ done
 cd /
 git -C /repo worktree remove --force $D
 git -C /repo worktree prune
+/verif/tools/trimcache.sh
